@@ -792,6 +792,46 @@ def generate(o):
 
     dl = o.item("dataframe.description_lookup", desc_lookup, "byPosition")
 
+    # ---- DataFrame.description: is the list computed from the schema on every read, or is an earlier answer
+    # kept (a caching decorator on the property, a memo in its body)?  And the same for `column_names`, which
+    # description iterates over.
+    CACHERS = {"single_item_cache", "lru_cache", "cache", "cached_property", "functools.lru_cache", "functools.cache",
+               "functools.cached_property", "tools.single_item_cache", "orso.tools.single_item_cache"}
+
+    def _decorators(fn):
+        out = []
+        for d in fn.decorator_list:
+            out.append(ast.unparse(d.func if isinstance(d, ast.Call) else d))
+        return out
+
+    def desc_reads():
+        fn = frame.func("description", "DataFrame")
+        decos = _decorators(fn)
+        kept = [d for d in decos if d in CACHERS]
+        if [d for d in decos if d not in CACHERS and d != "property"]:
+            raise KeyError("decorator of unknown kind on description: %r" % (decos,))
+        if "property" not in decos and "cached_property" not in " ".join(decos):
+            raise KeyError("description is not a property")
+        body = list(fn.body)
+        if body and isinstance(body[0], ast.Expr) and isinstance(body[0].value, ast.Constant) and isinstance(body[0].value.value, str):
+            body = body[1:]
+        # the body: `result = []`, one loop, `return result` - anything else (a memo read or written, an early
+        # return) is a shape this reader does not know
+        ok = (len(body) == 3 and isinstance(body[0], ast.Assign) and ast.unparse(body[0]) == "result = []"
+              and isinstance(body[1], ast.For) and isinstance(body[2], ast.Return) and ast.unparse(body[2]) == "return result")
+        if not ok:
+            raise KeyError("body of description of unknown shape")
+        for n in ast.walk(body[1]):
+            if isinstance(n, (ast.Return, ast.Global, ast.Nonlocal)) or \
+                    (isinstance(n, (ast.Assign, ast.AugAssign, ast.AnnAssign)) and "self." in ast.unparse(
+                        n.targets[0] if isinstance(n, ast.Assign) else n.target)):
+                raise KeyError("the loop of description returns early or writes to the frame")
+        names_fn = frame.func("column_names", "DataFrame")
+        names_kept = [d for d in _decorators(names_fn) if d in CACHERS]
+        return ["keptPerFrame" if kept else "fresh", "keptPerFrame" if names_kept else "fresh"]
+
+    dr = o.item("dataframe.description_reads", desc_reads, ["fresh", "keptPerFrame"])
+
     # ---------------------------------------------------------------- emit
     def cond(c):
         if c[0] == "member":
@@ -879,6 +919,14 @@ def generate(o):
     t += "/-- `DataFrame.description`: the entry of a column is built from the column in the same position, or from the first column that bears its name -/\n"
     t += "inductive Lookup where\n  | byPosition\n  | byName\n  deriving Repr, DecidableEq\n"
     t += "def descLookup : Lookup := .%s\n" % dl
+    t += "/-- how a property of the frame answers: computed from the schema on every read, or the last answer is kept\n"
+    t += "(a result cache keyed on the frame object: `single_item_cache` and the like) -/\n"
+    t += "inductive ReadMode where\n  | fresh\n  | keptPerFrame\n  deriving Repr, DecidableEq\n"
+    t += "/-- `DataFrame.description` (its decorators and the shape of its body) -/\n"
+    t += "def descRead : ReadMode := .%s\n" % dr[0]
+    t += "/-- `DataFrame.column_names`, which description iterates over (informational: the sessions of the model keep\n"
+    t += "the names and the number of the columns, so a kept tuple of names equals the current one) -/\n"
+    t += "def namesRead : ReadMode := .%s\n" % dr[1]
     t += "/-- `OrsoTypes` members: (name, str(value)) -/\n"
     t += "def members : List (List Char × List Char) := %s\n" % lean_list(mem, lambda p: "(%s, %s)" % (lean_chars(p[0]), lean_chars(p[1])))
     t += "def bareChain : List (Cond × Outcome) := %s\n" % lean_list(branches, lambda b: "(%s, %s)" % (cond(b[0]), outcome(b[1])))
